@@ -259,7 +259,8 @@ def run_grammar(spec, prop, R, tier, batch, stats):
                 ctx = Ctx(b, prop, meta=(prop == "C11"))
         except Exception as e:
             batch.trace(spec["id"], [{"e": "extract_failed", "exc": exc_name(e)}],
-                        {"k": "syn", "g": declared_grammar(list(b.classes.values()), b.start), "impl0": {"expd": False}})
+                        {"k": "syn", "g": declared_grammar(list(b.classes.values()), b.start), "impl0": {"expd": False},
+                         "annot": "strings" if spec.get("postponed") else "objects"})
             return
         quick = tier == "quick"
         mind = ctx.mind
@@ -283,13 +284,17 @@ def run_grammar(spec, prop, R, tier, batch, stats):
             except Exception:
                 pass
             ctx.snapshot_grammar()
+        elif spec.get("postponed"):
+            for d in (mind + 1, mind + 2):
+                workload(ctx, R, d, ["grow", "pt"], ["tree", "stack"], 3 if quick else 8, 3 if quick else 8)
         else:
             d = mind + 2
             workload(ctx, R, d, ["grow", "full", "pigrow", "pt"], ["tree", "ge", "sge", "dsge", "stack"],
                      2 if quick else 5, 2 if quick else 6)
             if prop == "C02":
                 validate_events(ctx, R)
-        cfg = {"k": "syn", "g": ctx.decl, "impl0": ctx.impl0, "feats": spec.get("feats", [])}
+        cfg = {"k": "syn", "g": ctx.decl, "impl0": ctx.impl0, "feats": spec.get("feats", []),
+               "annot": "strings" if spec.get("postponed") else "objects"}
         batch.trace(spec["id"], ctx.events, cfg)
         stats["events"] += len(ctx.events)
         if prop == "C11" and "source" not in spec:
@@ -302,7 +307,7 @@ def run_grammar(spec, prop, R, tier, batch, stats):
             if cx.mind < 1000:
                 workload(cx, R, cx.mind + 2, ["grow", "pt"], ["tree", "ge", "dsge"], 2 if quick else 4, 2 if quick else 4)
                 batch.trace(spec["id"] + "/expansion", cx.events,
-                            {"k": "syn", "g": cx.decl, "impl0": cx.impl0, "feats": spec.get("feats", [])})
+                            {"k": "syn", "g": cx.decl, "impl0": cx.impl0, "feats": spec.get("feats", []), "annot": "objects"})
                 stats["events"] += len(cx.events)
     finally:
         b.dispose()
@@ -341,7 +346,7 @@ def redeclare_scenario(spec, prop, R, batch, stats):
         ctx = Ctx(b, prop, meta=(prop == "C11"))                                   # extract again: new declaration
         workload(ctx, R, ctx.mind + 1, ["grow", "pt"], ["tree", "ge", "sge", "dsge"], 2, 2)
         batch.trace("redeclared/" + spec["id"], ctx.events,
-                    {"k": "syn", "g": ctx.decl, "impl0": ctx.impl0, "feats": spec.get("feats", [])})
+                    {"k": "syn", "g": ctx.decl, "impl0": ctx.impl0, "feats": spec.get("feats", []), "annot": "objects"})
         stats["events"] += len(ctx.events)
     finally:
         b.dispose()
@@ -365,6 +370,9 @@ def main():
     specs += GR.family(R, n, FEATS_ALL)
     for spec in specs:
         run_grammar(spec, a.prop, R, a.tier, batch, stats)
+    if a.prop in ("C01", "C02", "C11"):
+        for spec in GR.POSTPONED:
+            run_grammar(spec, a.prop, R, a.tier, batch, stats)
     if a.prop in ("C01", "C02"):
         for spec in [x for x in specs if "source" not in x][: (14 if a.tier == "quick" else 120)]:
             redeclare_scenario(spec, a.prop, R, batch, stats)
